@@ -1577,8 +1577,10 @@ def legacy_cases(ctx, zoo, thorough):
         if call_only(skey) and skey != 't_float64_0':
             continue
         for name in names:
-            for outp in ('n', 'e', 'a'):
+            for outp in ('n', 'e', 'a', 'E'):     # 'E': out=(o1, o2) to the power (1,2) wrapper
                 if kind == 'power' and outp == 'a':
+                    continue
+                if outp == 'E' and not (kind == 'power' and getattr(np, name).nout == 2):
                     continue
                 for second in ('e', 'a', 's'):
                     yield skey, kind, name, outp, second
@@ -1692,6 +1694,8 @@ def run_legacy(ctx, zoo, spaces, lines, meta, thorough):
             given = tuple(g)
             if u.nout == 1:
                 okw['out'] = given[0]
+            elif kind == 'power' and outp == 'E':
+                okw['out'] = given
             elif kind == 'power':
                 okw['out1'], okw['out2'] = given
             else:
@@ -1706,6 +1710,9 @@ def run_legacy(ctx, zoo, spaces, lines, meta, thorough):
             impl = ('err', e)
         c = Case('legacy', skey, kind, name, u, '__call__', 'e' + (second if u.nin == 2 else ''),
                  outp * u.nout if outp != 'n' else 'n', {})
+        if outp == 'E':
+            c.out = 'ee'
+            c.kw = {'_form': 'out-tuple'}
         r = dict(c=c, ops=ops, pre=[plain(o) if kind_of(o) or isinstance(o, np.ndarray) else o
                                     for o in ops], x=x, np0=npres, npo=npres, impl=impl,
                  outs_odl=given, outs_np=None if given is None else tuple(
@@ -1724,10 +1731,12 @@ def run_legacy(ctx, zoo, spaces, lines, meta, thorough):
                     model_line(r, iface='legacy')[len('ufunc '):])
             lines.append(line)
         else:
+            ok_ = 'absent' if given is None else ''.join(out_kind(g, c) for g in given)
             line = 'plegacy name={} shape={} dtype={} outs={} np={}'.format(
                 name, shp(space.shape), base_dtype(space).name,
-                'absent' if given is None else ''.join(out_kind(g, c) for g in given),
-                np_desc(npres, u.nout))
+                'absent outtuple=' + ok_ if outp == 'E' else ok_, np_desc(npres, u.nout))
+            if outp == 'E':
+                ctx.hit('psvalue/outbranch/twoout-tuple-form')
             lines.append(line)
         meta.append((c, r, problems, line))
 
@@ -2846,7 +2855,7 @@ PSVALUE_STRATA = (
      'psvalue/array/tensor-plus-power'] +
     ['psvalue/outbranch/' + f for f in ('same', 'scalar', 'inplace', 'sub', 'more-parts',
                                          'fewer-parts', 'twoout-fresh', 'twoout-given',
-                                         'twoout-mixed')])
+                                         'twoout-mixed', 'twoout-tuple', 'twoout-tuple-form')])
 
 
 def run_psvalue(ctx, V, n_random):
@@ -2906,7 +2915,7 @@ def ps_out_branches(ctx, V):
     pool = [Fraction(k, 4) for k in range(-12, 13) if k != 0]
     for spec in specs:
         for form in ('same', 'scalar', 'inplace', 'sub', 'more-parts', 'fewer-parts',
-                     'twoout-fresh', 'twoout-given', 'twoout-mixed'):
+                     'twoout-fresh', 'twoout-given', 'twoout-mixed', 'twoout-tuple'):
             if form == 'sub' and spec is not P2:
                 continue
             case = {'stream': 'psvalue', 'op': 'outbranch', 'name': form, 'spec': spec,
@@ -2936,8 +2945,11 @@ def ps_outbranch_case(case):
         return o
     if form.startswith('twoout'):
         o1 = fresh() if form != 'twoout-fresh' else None
-        o2 = fresh() if form == 'twoout-given' else None
-        res = ps_call(lambda: x.ufuncs.modf(out1=o1, out2=o2))
+        o2 = fresh() if form in ('twoout-given', 'twoout-tuple') else None
+        if form == 'twoout-tuple':      # the out=(o1, o2) form (accepted since /repo 1021b41)
+            res = ps_call(lambda: x.ufuncs.modf(out=(o1, o2)))
+        else:
+            res = ps_call(lambda: x.ufuncs.modf(out1=o1, out2=o2))
         r1, r2 = np.modf(fx)
         if res[0] == 'err':
             return [('impl-raised:' + type(res[1]).__name__, exc_desc(res[1]))]
